@@ -494,6 +494,19 @@ class Anchors:
         except Exception as ex:  # noqa  -- any failure to recognise the source is a broken anchor (fail closed), never a crash of the check
             self._fail(name, relpath, qualname, what, ex)
 
+    def pure(self, name, targets, what):
+        """Structural anchor: none of the listed functions (relpath, qualname) changes its arguments, `self`, or writes through out=."""
+        try:
+            found = []
+            for relpath, qual in targets:
+                src, tree = self.load(relpath)
+                sites = mutation_sites(find_def(tree, qual))
+                found += [f"{relpath}::{qual}: {x}" for x in sites]
+            d = f"Definition {name} : bool := {'true' if not found else 'false'}."
+            self._record(name, targets[0][0], ", ".join(q for _, q in targets)[:300], what, ("no in-place mutation found" if not found else "; ".join(found))[:1500], d)
+        except Exception as ex:  # noqa
+            self._fail(name, targets[0][0], "", what, ex)
+
     def render(self, pid: str) -> str:
         head = ("(* GENERATED by /verif/harness/translate.py from the current /repo working tree.\n"
                 "   Do not edit: rewritten on every check run. *)\n"
@@ -501,3 +514,47 @@ class Anchors:
                 "From Acryo Require Import Common.PyNum.\n"
                 "Import ListNotations.\nLocal Open Scope Z_scope.\n\n")
         return head + "\n".join(self.items)
+
+
+def mutation_sites(fn: ast.AST) -> list:
+    """In-place changes to a function's own arguments (or to `self`) and writes through `out=`: the places where a function that
+    should be a pure function of its inputs could carry state from one call to the next or alter what the caller (or a cache) holds.
+    Returns a list of short descriptions (empty = none found).  Purely syntactic and conservative."""
+    if not isinstance(fn, (ast.FunctionDef, ast.AsyncFunctionDef)):
+        raise Untranslatable("not a function")
+    params = {a.arg for a in fn.args.args + fn.args.kwonlyargs + fn.args.posonlyargs}
+    if fn.args.vararg: params.add(fn.args.vararg.arg)
+    if fn.args.kwarg: params.add(fn.args.kwarg.arg)
+    rebound = set()          # parameters re-bound to a fresh value before being modified are the function's own
+    out = []
+
+    def base(n):
+        while isinstance(n, (ast.Subscript, ast.Attribute)):
+            n = n.value
+        return n.id if isinstance(n, ast.Name) else None
+    # simple aliases of a parameter:  x = p,  x = np.asarray(p, ...),  x = np.asanyarray(p)
+    for node in ast.walk(fn):
+        if isinstance(node, ast.Assign) and len(node.targets) == 1 and isinstance(node.targets[0], ast.Name):
+            v = node.value
+            if isinstance(v, ast.Name) and v.id in params:
+                params.add(node.targets[0].id)
+            elif isinstance(v, ast.Call) and isinstance(v.func, ast.Attribute) and v.func.attr in ("asarray", "asanyarray") and v.args \
+                    and isinstance(v.args[0], ast.Name) and v.args[0].id in params:
+                params.add(node.targets[0].id)
+    for node in ast.walk(fn):
+        if isinstance(node, ast.AugAssign):
+            b = base(node.target)
+            if b in params or b == "self":
+                out.append(f"{ast.unparse(node)[:60]}")
+        elif isinstance(node, ast.Assign):
+            for t in node.targets:
+                if isinstance(t, (ast.Subscript, ast.Attribute)) and (base(t) in params):
+                    out.append(f"{ast.unparse(node)[:60]}")
+        elif isinstance(node, ast.Call):
+            for kw in node.keywords:
+                if kw.arg == "out" and base(kw.value) is not None:
+                    out.append(f"out={ast.unparse(kw.value)} in {ast.unparse(node)[:50]}")
+            if isinstance(node.func, ast.Attribute) and node.func.attr in ("sort", "fill", "resize", "itemset", "setfield", "put", "clear", "update", "pop", "append", "extend") \
+                    and base(node.func.value) in params:
+                out.append(f"{ast.unparse(node)[:60]}")
+    return out
